@@ -121,6 +121,8 @@ def on_include(p, r, exc, acc):
     acc.tags["asserted"] += 1
     want = ref_include(r["f"])
     acc.vcs += 1
+    if r["exc"] is None and r["out"] == want:
+        acc.good("include-arguments", dict(flags=r["f"]))
     if r["exc"] is not None or r["out"] != want:
         acc.candidate(kind="include-arguments", input=dict(flags=r["f"]), detail="rendered %r (%r), documented %r" % (r["out"], r["exc"], want))
     acc.sample(dict(flags=r["f"], output=r["out"]))
@@ -276,6 +278,8 @@ def on_api(p, r, exc, acc):
         ok = isinstance(r["exc"], EXC.TemplateLookupException)
     else:
         ok = r["exc"] is None and r["out"] == want
+    if ok:
+        acc.good("uri-reaches-wrong-template", dict(flags=r["f"], api=True))
     if not ok:
         acc.candidate(kind="uri-reaches-wrong-template", input=dict(flags=r["f"], api=True), detail="rendered %r (%r), documented %r" % (r["out"], r["exc"], want))
     acc.sample(dict(flags=r["f"], output=r["out"] if r["exc"] is None else type(r["exc"]).__name__))
@@ -360,9 +364,11 @@ def run(check, tier):
     for j in jobs:
         driver.register(j[0], j[1], j[2])
     cands = []
+    goods = []
     for name, _h, _o, title, bounds, req in jobs:
         st, acc = driver.explore(name, time_limit=900)
         check.section(title, st, acc, bounds, tags_required=req)
         cands.extend(acc.candidates)
-    check.confirm(cands, make_replay, classify, max_confirm=16)
+        goods.extend(acc.goods)
+    check.confirm(cands, make_replay, classify, max_confirm=16, goods=goods)
     driver.close_pool()
